@@ -286,8 +286,26 @@ impl Expr {
 
                 let rhs = rhs.for_type(flags)?;
 
-                lhs.get_output_type(&rhs, op, flags)
-                    .with_context(|| format!("invalid operation: {} {} {}", lhs, op.symbol(), rhs))
+                let output = lhs
+                    .get_output_type(&rhs, op, flags)
+                    .with_context(|| format!("invalid operation: {} {} {}", lhs, op.symbol(), rhs))?;
+
+                // `a += b` stores the result back into `a`: a result of another numeric kind
+                // (int += bigint, byte += int, int += float) would not have `a`'s type.
+                if op.is_op_assign() {
+                    if let (TypeLayout::Native(target), TypeLayout::Native(result)) =
+                        (lhs.disregard_distractors(false), &output)
+                    {
+                        if lhs.is_numeric(true)
+                            && output.is_numeric(true)
+                            && std::mem::discriminant(target) != std::mem::discriminant(result)
+                        {
+                            bail!("cannot apply {op} here: the result is `{output}`, which does not fit the target's type `{lhs}`")
+                        }
+                    }
+                }
+
+                Ok(output)
             }
             Expr::UnaryMinus(val) | Expr::UnaryNot(val) => val.for_type(flags),
             Expr::Callable(CallableContents::Standard { function, .. }) => {
